@@ -96,6 +96,25 @@ def count_recs(G, S, leafmap, cap=None):
     return sum(cnt[G.root].values())
 
 
+def some_recs(G, S, leafmap, limit, rng=None):
+    """At most ``limit`` valid reconciliations: all of them when there are few, otherwise distinct random ones
+    (``all_recs`` materialises the solutions of every subtree and must not be started on large inputs)."""
+    import random as _random
+
+    if count_recs(G, S, leafmap) <= max(limit, 20000):
+        import itertools
+
+        return list(itertools.islice(all_recs(G, S, leafmap), limit))
+    rng = rng or _random.Random(0)
+    seen = {}
+    for _ in range(limit * 3):
+        m = random_rec(rng, G, S, leafmap, high_p=rng.choice([0.2, 0.5, 0.9]))
+        seen.setdefault(tuple(sorted(m.items())), m)
+        if len(seen) >= limit:
+            break
+    return list(seen.values())
+
+
 def rec_cost(G, S, m, c):
     tot = 0
     for v in G.nodes:
